@@ -619,6 +619,11 @@ fn get_sub_iovs_offset(iov_lens: &[usize], skip_size: usize) -> (usize, usize) {
     (nr_skip, size)
 }
 
+#[cfg(vhost_verif)]
+pub(super) fn verif_get_sub_iovs_offset(iov_lens: &[usize], skip_size: usize) -> (usize, usize) {
+    get_sub_iovs_offset(iov_lens, skip_size)
+}
+
 #[cfg(test)]
 mod tests {
     use super::*;
